@@ -22,16 +22,16 @@ import (
 )
 
 var verifInventory = map[string][]string{
-	"IRCServer": {"sessions", "sessionsMu", "serverSessions", "nicks", "channels", "svsholds", "ServerPrefix", "lastProcessed", "lastProcessedMu", "ServerCreation", "Config", "ConfigMu"},
-	"Session": {"Id", "auth", "loggedIn", "Nick", "Username", "Realname", "Channels", "LastActivity", "LastNonPing", "LastSolvedCaptcha", "Operator", "AwayMsg", "Created", "throttlingExponent", "invitedTo", "modes", "svid", "Pass", "Server", "lastClientMessageId", "ircPrefix", "deleted", "RemoteAddr"},
+	"IRCServer":  {"sessions", "sessionsMu", "serverSessions", "nicks", "channels", "svsholds", "ServerPrefix", "lastProcessed", "lastProcessedMu", "ServerCreation", "Config", "ConfigMu"},
+	"Session":    {"Id", "auth", "loggedIn", "Nick", "Username", "Realname", "Channels", "LastActivity", "LastNonPing", "LastSolvedCaptcha", "Operator", "AwayMsg", "Created", "throttlingExponent", "invitedTo", "modes", "svid", "Pass", "Server", "lastClientMessageId", "ircPrefix", "deleted", "RemoteAddr"},
 	"channel":    {"name", "topicNick", "topicTime", "topic", "nicks", "modes", "key", "bans"},
 	"banPattern": {"re", "pattern"},
 	"svshold":    {"added", "duration", "reason"},
-	"Network": {"Revision", "IRC", "SessionExpiration", "PostMessageCooloff", "TrustedBridges", "CaptchaURL", "CaptchaHMACSecret", "CaptchaRequiredForLogin", "MaxSessions", "MaxChannels", "Banned", "WhitelistedOrigins"},
-	"IRC":     {"Operators", "Services"},
-	"IRCOp":   {"Name", "Password"},
-	"Service": {"Password"},
-	"Id":      {"Id", "Reply"},
+	"Network":    {"Revision", "IRC", "SessionExpiration", "PostMessageCooloff", "TrustedBridges", "CaptchaURL", "CaptchaHMACSecret", "CaptchaRequiredForLogin", "MaxSessions", "MaxChannels", "Banned", "WhitelistedOrigins"},
+	"IRC":        {"Operators", "Services"},
+	"IRCOp":      {"Name", "Password"},
+	"Service":    {"Password"},
+	"Id":         {"Id", "Reply"},
 }
 
 // vExtraFields lists, per dumped type, the fields the repository has gained since the explicit printer
